@@ -187,4 +187,21 @@ def gen_project(rng, n_modules, size):
         others = [o for o in names if o != nm and rng.random() < 0.6]
         path = nm + ".py" if rng.random() < 0.7 or i == 0 else f"pkg/{nm}.py"
         files[path] = gen_module(rng, nm, others, size)
+    r = rng.random()
+    if r < 0.25:
+        # an ambiguous import: the same module name in two packages, imported non-relatively from a third place
+        for pk in ("pkg_a", "pkg_b"):
+            files[f"{pk}/helpers.py"] = (f"MARK = {pk!r}\ndef run(alpha, beta=1):\n    gamma = alpha\n    sink(gamma)\n    return {pk!r}\n"
+                                         f"def helper(alpha, beta=2):\n    return alpha\n")
+        first = sorted(files)[0]
+        files[first] = ("from helpers import run\nimport helpers\n" + files[first] +
+                        "\ndef go(zeta):\n    eta = run(zeta, beta=source())\n    return helpers.helper(eta)\ngo(source())\n")
+    elif r < 0.45:
+        # sibling units whose names differ only in case, and names that sort differently with and without case folding
+        d = rng.choice(["", "pkg/"])
+        files[f"{d}Codec.py"] = "def encode(alpha):\n    return alpha\n"
+        files[f"{d}codec.py"] = "def decode(beta):\n    sink(beta)\n    return beta\n"
+        if rng.random() < 0.5:
+            files[f"{d}Zeta.py"] = "ZETA = 1\n"
+            files[f"{d}alpha_low.py"] = "ALPHA = source()\n"
     return files
